@@ -305,23 +305,28 @@ func modelC10(d []byte, toks []TokSpec) c10Model {
 	return m
 }
 
-func parseC10(src string, toks []TokSpec, pre int, named ...bool) (node parsley.Node, base int, err error, perr error) {
+// buildC10 constructs the grammar of a case once: Sentence(SeqOf(tokens...)).
+func buildC10(toks []TokSpec, named bool) parsley.Parser {
+	parsers := make([]parsley.Parser, len(toks))
+	for i, ts := range toks {
+		parsers[i] = tokParser(ts)
+	}
+	seq := combinator.SeqOf(parsers...)
+	if named {
+		// a name replaces a not-found error at the sequence start, never a whitespace error
+		seq = seq.Name("pair")
+	}
+	return combinator.Sentence(seq)
+}
+
+func parseC10(root parsley.Parser, src string, pre int) (node parsley.Node, base int, err error, perr error) {
 	defer func() {
 		if r := recover(); r != nil {
 			perr = fmt.Errorf("panic: %v", r)
 		}
 	}()
-	parsers := make([]parsley.Parser, len(toks))
-	for i, ts := range toks {
-		parsers[i] = tokParser(ts)
-	}
 	ctx, _, base := NewCtxAt(src, pre)
-	seq := combinator.SeqOf(parsers...)
-	if len(named) > 0 && named[0] {
-		// a name replaces a not-found error at the sequence start, never a whitespace error
-		seq = seq.Name("pair")
-	}
-	node, err = parsley.Parse(ctx, combinator.Sentence(seq))
+	node, err = parsley.Parse(ctx, root)
 	return
 }
 
@@ -363,7 +368,21 @@ func checkC10(ci interface{}, st *Stats) error {
 		}
 	}
 	m := modelC10(d, c.Toks)
-	node, base, err, perr := parseC10(src, c.Toks, c.Pre, c.Named)
+	// one grammar value serves every parse of the case; it has a history: the same tokens with the
+	// opposite whitespace (every empty gap filled, every filled gap emptied) were parsed with it first
+	root := buildC10(c.Toks, c.Named)
+	decoy := &C10Case{Toks: c.Toks}
+	for _, g := range c.Gaps {
+		if g == "" {
+			decoy.Gaps = append(decoy.Gaps, " \n ")
+		} else {
+			decoy.Gaps = append(decoy.Gaps, "")
+		}
+	}
+	if _, _, _, perr := parseC10(root, decoy.source(), 0); perr != nil {
+		return perr
+	}
+	node, base, err, perr := parseC10(root, src, c.Pre)
 	if perr != nil {
 		return perr
 	}
@@ -442,6 +461,17 @@ func checkC10(ci interface{}, st *Stats) error {
 			return fmt.Errorf("token %d spans %d..%d, want %d..%d (only a right-trimmed node's end moves past the run)", i, int(ch.Pos())-base, int(ch.ReaderPos())-base, m.spans[i][0], m.spans[i][1])
 		}
 	}
+	// inside a composite token nothing moves: only the right-trimmed node's own end goes past the run
+	for i, ch := range seq {
+		if nt, ok := ch.(parsley.NonTerminalNode); ok && c.Toks[i].Kind == 5 {
+			at := m.spans[i][0]
+			for k, b := range nt.Children() {
+				if int(b.Pos())-base != at+k || int(b.ReaderPos())-base != at+k+1 {
+					return fmt.Errorf("token %d (a run of b's at %d): its element %d spans %d..%d, want %d..%d", i, at, k, int(b.Pos())-base, int(b.ReaderPos())-base, at+k, at+k+1)
+				}
+			}
+		}
+	}
 	// metamorphic: the same tokens with every removable run removed give the same result
 	gaps2 := make([]string, len(c.Gaps))
 	removed := false
@@ -478,7 +508,7 @@ func checkC10(ci interface{}, st *Stats) error {
 		c2 := &C10Case{Toks: c.Toks, Gaps: gaps2}
 		src2 := c2.source()
 		if m2 := modelC10(normCRLF([]byte(src2)), c.Toks); !m2.mismatch && m2.wantErr == "" && !m2.lenient {
-			node2, _, err2, perr2 := parseC10(src2, c.Toks, c.Pre, c.Named)
+			node2, _, err2, perr2 := parseC10(root, src2, c.Pre)
 			if perr2 != nil {
 				return perr2
 			}
